@@ -170,6 +170,9 @@ def shapes():
         ('optional(sum(unit_switch,arg))', optional(sum_('lg', usw('lb', 'f', 'flag'), A()))),
         ('sum(prod(arg,arg_s),prod(option,switch))', sum_('lg', prod(A(), A('le', 'Str')), prod(opt_o(), sw_f()))),
         ('many(sum(arg,unit_switch))', many(sum_('lg', A(), usw('lb', 'f', 'flag')))),
+        ('prod(optional(sum(arg,unit_switch)),arg_s)', prod(optional(sum_('lg', A(), usw('lb', 'f', 'flag'))), A('le', 'Str'))),
+        ('prod(many(sum(arg,option)),many(arg_s))', prod(many(sum_('lg', A(), opt_o())), many(A('le', 'Str')))),
+        ('prod(optional(sum(option_u,arg_color)),many(arg_s))', prod(optional(sum_('lg', opt_o('lc', 'Unsigned'), A('la', 'Color'))), many(A('le', 'Str')))),
         ('commands', cmds()),
         ('optional(commands)', optional(cmds())),
         ('commands(switch;c1:prod(switch,arg);c2:optional(option))', commands(sw('lb', 'v', 'verbose'), [('c1', 't1', prod(sw('lf', 'f', 'flag'), A())), ('c2', 't2', optional(opt_o()))])),
